@@ -613,6 +613,7 @@ func (r *collection) addService(service any, lifetime Lifetime, opts ...AddOptio
 		}
 
 		// Register each field as a separate service that points to the same constructor
+		siblings := make([]*Descriptor, 0, len(descriptor.resultFields))
 		for _, field := range descriptor.resultFields {
 			// Create a descriptor for each field type
 			fieldDescriptor := &Descriptor{
@@ -628,6 +629,7 @@ func (r *collection) addService(service any, lifetime Lifetime, opts ...AddOptio
 				isFunc:          descriptor.isFunc,
 				isResultObject:  true,
 				resultFields:    descriptor.resultFields,
+				resultField:     field.Name,
 				isParamObject:   descriptor.isParamObject,
 				paramFields:     descriptor.paramFields,
 			}
@@ -640,6 +642,10 @@ func (r *collection) addService(service any, lifetime Lifetime, opts ...AddOptio
 					Cause:       err,
 				}
 			}
+			siblings = append(siblings, fieldDescriptor)
+		}
+		for _, sibling := range siblings {
+			sibling.coRegistered = siblings
 		}
 
 		// Don't register the result object type itself
@@ -658,6 +664,7 @@ func (r *collection) addService(service any, lifetime Lifetime, opts ...AddOptio
 
 		// If we have multiple non-error returns, register each as a separate service
 		if len(nonErrorReturns) > 1 {
+			siblings := make([]*Descriptor, 0, len(nonErrorReturns))
 			for i, ret := range nonErrorReturns {
 				// Create a descriptor for each return type
 				typeDescriptor := &Descriptor{
@@ -691,6 +698,10 @@ func (r *collection) addService(service any, lifetime Lifetime, opts ...AddOptio
 						Cause:       err,
 					}
 				}
+				siblings = append(siblings, typeDescriptor)
+			}
+			for _, sibling := range siblings {
+				sibling.coRegistered = siblings
 			}
 			return nil
 		}
